@@ -66,14 +66,14 @@ func main() {
 
 	logIPDTLS := func(logger func(asn uint, cc, tp string)) func(*net.IP) {
 		return func(ip *net.IP) {
-			cc, err := regManager.GeoIP.CC(*ip)
+			cc, err := regManager.GetGeoIP().CC(*ip)
 			if err != nil {
 				return
 			}
 
 			var asn uint = 0
 			if cc != "unk" {
-				asn, err = regManager.GeoIP.ASN(*ip)
+				asn, err = regManager.GetGeoIP().ASN(*ip)
 				if err != nil {
 					return
 				}
